@@ -5,6 +5,11 @@
 // overwritten outputs).
 #include "vq_io.hpp"
 #include <amgcl/backend/interface.hpp>
+#include <amgcl/backend/block_crs.hpp>
+#include <amgcl/backend/builtin_hybrid.hpp>
+#include <amgcl/value_type/static_matrix.hpp>
+#include <amgcl/adapter/block_matrix.hpp>
+#include <amgcl/backend/eigen.hpp>
 using vq::Q; using vq::Tok; using vq::show;
 namespace be = amgcl::backend;
 
@@ -33,12 +38,65 @@ template <class V> struct K {
         for (long k = 0; k < n; ++k) { c[k] = t.val<V>(); v[k] = t.vecT<V>(); vp[k] = &v[k]; }
         V alpha = t.val<V>(); vec y = t.vecT<V>();
         be::lin_comb(n, c, vp, alpha, y); return show(y); }
+    // block_crs backend: same operator as the scalar matrix for ANY block size (sizes need
+    // not be divisible); requires distinct columns per row (the converter overwrites duplicates)
+    static std::string bcrs_spmv(Tok &t) {
+        long b = t.i(); V alpha = t.val<V>(); auto A = t.crsT<V>(); vec x = t.vecT<V>(); V beta = t.val<V>(); vec y = t.vecT<V>();
+        amgcl::backend::bcrs<V, ptrdiff_t, ptrdiff_t> B(*A, b);
+        be::spmv(alpha, B, x, beta, y); return show(y); }
+    static std::string bcrs_residual(Tok &t) {
+        long b = t.i(); vec f = t.vecT<V>(); auto A = t.crsT<V>(); vec x = t.vecT<V>(); vec r = t.vecT<V>();
+        amgcl::backend::bcrs<V, ptrdiff_t, ptrdiff_t> B(*A, b);
+        be::residual(f, B, x, r); return show(r); }
     static void reg(const std::string &pfx) {
+        vq::registry()[pfx + "bcrs.spmv"] = bcrs_spmv; vq::registry()[pfx + "bcrs.residual"] = bcrs_residual;
         auto &r = vq::registry();
         r[pfx + "spmv"] = spmv; r[pfx + "residual"] = residual; r[pfx + "axpby"] = axpby; r[pfx + "axpbypcz"] = axpbypcz;
         r[pfx + "vmul"] = vmul; r[pfx + "copy"] = copy; r[pfx + "clear"] = clear; r[pfx + "inner"] = inner;
         r[pfx + "lin_comb"] = lin_comb;
     }
 };
+// hybrid backend (double): block-valued matrix built by the block_matrix adapter, scalar vectors
+template <int B> static std::string hyb_spmv_b(Tok &t) {
+    typedef amgcl::static_matrix<double, B, B> Blk;
+    double alpha = t.d(); auto A = t.crsT<double>(); auto x = t.vecT<double>(); double beta = t.d(); auto y = t.vecT<double>();
+    auto Ab = std::make_shared< amgcl::backend::crs<Blk, ptrdiff_t, ptrdiff_t> >(amgcl::adapter::block_matrix<Blk>(*A));
+    be::spmv(alpha, *Ab, x, beta, y); return show(y);
+}
+template <int B> static std::string hyb_residual_b(Tok &t) {
+    typedef amgcl::static_matrix<double, B, B> Blk;
+    auto f = t.vecT<double>(); auto A = t.crsT<double>(); auto x = t.vecT<double>(); auto r = t.vecT<double>();
+    auto Ab = std::make_shared< amgcl::backend::crs<Blk, ptrdiff_t, ptrdiff_t> >(amgcl::adapter::block_matrix<Blk>(*A));
+    be::residual(f, *Ab, x, r); return show(r);
+}
+VQ_OP(hyb_spmv) { long b = t.i(); if (b == 2) return hyb_spmv_b<2>(t); if (b == 3) return hyb_spmv_b<3>(t); if (b == 4) return hyb_spmv_b<4>(t); return "UNSUPPORTED"; }
+VQ_OP(hyb_residual) { long b = t.i(); if (b == 2) return hyb_residual_b<2>(t); if (b == 3) return hyb_residual_b<3>(t); if (b == 4) return hyb_residual_b<4>(t); return "UNSUPPORTED"; }
+// Eigen backend (double)
+static std::vector<double> from_eigen(const Eigen::VectorXd &v) { return std::vector<double>(v.data(), v.data() + v.size()); }
+static Eigen::VectorXd to_eigen(const std::vector<double> &v) { Eigen::VectorXd e(v.size()); for (size_t i = 0; i < v.size(); ++i) e[i] = v[i]; return e; }
+VQ_OP(eig_spmv) {
+    typedef amgcl::backend::eigen<double> EB;
+    double alpha = t.d(); auto A = t.crsT<double>(); auto x = t.vecT<double>(); double beta = t.d(); auto y = t.vecT<double>();
+    std::shared_ptr< amgcl::backend::crs<double, ptrdiff_t, ptrdiff_t> > As = A;
+    auto Ae = EB::copy_matrix(As, EB::params());
+    Eigen::VectorXd xe = to_eigen(x), ye = to_eigen(y);
+    be::spmv(alpha, *Ae, xe, beta, ye); return show(from_eigen(ye));
+}
+VQ_OP(eig_residual) {
+    typedef amgcl::backend::eigen<double> EB;
+    auto f = t.vecT<double>(); auto A = t.crsT<double>(); auto x = t.vecT<double>(); auto r = t.vecT<double>();
+    std::shared_ptr< amgcl::backend::crs<double, ptrdiff_t, ptrdiff_t> > As = A;
+    auto Ae = EB::copy_matrix(As, EB::params());
+    Eigen::VectorXd fe = to_eigen(f), xe = to_eigen(x), re = to_eigen(r);
+    be::residual(fe, *Ae, xe, re); return show(from_eigen(re));
+}
+VQ_OP(eig_vec) {   // axpby, axpbypcz, vmul, inner product, copy, clear on Eigen vectors
+    std::string what = t.s();
+    if (what == "axpby") { double a = t.d(); auto x = to_eigen(t.vecT<double>()); double b = t.d(); auto y = to_eigen(t.vecT<double>()); be::axpby(a, x, b, y); return show(from_eigen(y)); }
+    if (what == "axpbypcz") { double a = t.d(); auto x = to_eigen(t.vecT<double>()); double b = t.d(); auto y = to_eigen(t.vecT<double>()); double c = t.d(); auto z = to_eigen(t.vecT<double>()); be::axpbypcz(a, x, b, y, c, z); return show(from_eigen(z)); }
+    if (what == "vmul") { double a = t.d(); auto x = to_eigen(t.vecT<double>()); auto y = to_eigen(t.vecT<double>()); double b = t.d(); auto z = to_eigen(t.vecT<double>()); be::vmul(a, x, y, b, z); return show(from_eigen(z)); }
+    if (what == "inner") { auto x = to_eigen(t.vecT<double>()); auto y = to_eigen(t.vecT<double>()); return show((double)be::inner_product(x, y)); }
+    return "UNSUPPORTED";
+}
 VQ_OP(norm) { auto x = t.vec(); return show(Q(sqrt(amgcl::math::norm(be::inner_product(x, x))))); }
 int main() { K<Q>::reg(""); K<double>::reg("d."); return vq::driver_main(); }
